@@ -786,7 +786,20 @@ Inductive op :=
 | ODropStream (t : N)           (* drop the StreamingPayload *)
 | ODropChunk (t : N)            (* drop the pending StreamingPayload::send future *)
 | ONop
-| OCreate (t k id size : N).    (* call the API for task t WITHOUT polling the returned future; OStart = OCreate; OPoll *)
+| OCreate (t k id size : N)     (* call the API for task t WITHOUT polling the returned future; OStart = OCreate; OPoll *)
+| OInPub (id : N).              (* the peer writes a QoS 1 PUBLISH with packet id [id]: an inbound request *)
+
+(* operation 17: the peer writes a well-formed QoS 1 PUBLISH (topic "a", payload "x", packet id [id]) on the
+   connection.  The publish handler of the harness' server answers at once with Ok, the dispatcher returns the
+   PUBACK as the response of the request and io.rs encodes it (`io.encode`, not MqttShared::encode_packet: the
+   send window, write back-pressure and check_streaming play no role).  Wire entry: 104 = 100 + packet type 4,
+   id.  Ignored -- by the harness and by the model -- when the connection is not open, when the id is 0, while a
+   streamed payload is owed (the codec would refuse the PUBACK and io.rs would end the connection with the encode
+   error), and on a client connection (role 1: `start_default` hands an inbound PUBLISH to the default control
+   service, which answers every message with a disconnect). *)
+Definition W_IN_PUBACK : N := 104.
+Definition in_publish (s : sink) (id : N) : sink :=
+  if (io s =? 0) && (srem s =? 0) && negb (id =? 0) && negb (client s) then add_wire s [W_IN_PUBACK; id] else s.
 
 Definition sink_step (s : sink) (o : op) : sink :=
   match o with
@@ -806,6 +819,7 @@ Definition sink_step (s : sink) (o : op) : sink :=
   | ODropChunk t => drop_chunk s t
   | ONop => s
   | OCreate t k id size => create_task s t k id size
+  | OInPub id => in_publish s id
   end.
 
 (* numeric form of the operations (see harness/src/engines/sink.rs) *)
@@ -840,6 +854,7 @@ Definition parse_op (f : list N) : op :=
   | 15 :: t :: _ => ODropChunk t
   | 16 :: t :: k :: id :: rest => OCreate t k (U16 id) (match rest with sz :: _ => sz | [] => 0 end)
   | [16; t; k] => OCreate t k 0 0
+  | 17 :: id :: _ => OInPub (U16 id)
   | _ => ONop
   end.
 
